@@ -468,6 +468,27 @@ func init() {
 				executors["hwDetails"](c, "hwDetails.structure", M{"op": "hwDetails", "cert": hx(der), "_dev": "noSAN", "_expect": false})
 			}
 		}},
+		Stream{"hwDetails.allVendors", func(c *Ctx) {
+			// every vendor of the reviewed registry table is accepted; neighbours of each id (one bit flipped) are not, unless registered themselves
+			kp := genKeyPairOnCurve(c.R, algES256, 1, false)
+			reviewed := []uint32{0x414D4400, 0x41544D4C, 0x4252434D, 0x4353434F, 0x464C5953, 0x48504500, 0x49424D00, 0x49465800, 0x494E5443, 0x4C454E00,
+				0x4D534654, 0x4E534D20, 0x4E545A00, 0x4E544300, 0x51434F4D, 0x534D5343, 0x53544D20, 0x534D534E, 0x534E5300, 0x54584E00, 0x57454300,
+				0x524F4343, 0x474F4F47, 0xFFFFF1D0}
+			isReviewed := map[uint32]bool{}
+			for _, v := range reviewed {
+				isReviewed[v] = true
+			}
+			run := func(id uint32, expect bool, dev string) {
+				attrs := []tpmAttr{{oidTPMMfr, fmt.Sprintf("id:%08X", id)}, {oidTPMModel, "m"}, {oidTPMVersion, "v"}}
+				der := makeCert(kp.Public(), CertSpec{Extensions: []pkix.Extension{tpmSAN(attrs)}})
+				executors["hwDetails"](c, "hwDetails.allVendors", M{"op": "hwDetails", "cert": hx(der), "_dev": dev, "_expect": expect})
+			}
+			for _, v := range reviewed {
+				run(v, true, "reviewed-vendor")
+				n := v ^ (1 << uint(c.R.Intn(32)))
+				run(n, isReviewed[n], "neighbour")
+			}
+		}},
 		Stream{"keyDesc.goStyle", func(c *Ctx) {
 			// encoded by the independent encoder in encoding/asn1's own flag form: must decode to exactly these fields, and re-Marshal byte for byte
 			n := c.N(600, 30000)
